@@ -52,7 +52,7 @@ bool excluded(const std::string &sig) {
 }  // namespace
 namespace vf {
 bool is_excluded(const std::string &sig) { return excluded(sig); }
-void count_excluded(const std::string &sig) { G.excluded_known++; G.excluded[sig]++; }
+void count_excluded(const std::string &sig) { if (g_failed_once) return; G.excluded_known++; G.excluded[sig]++; }
 }
 namespace {
 const char *signame(int s) {
